@@ -956,7 +956,20 @@ func (x *Exec) quiesce(i int, op Op) *vcore.Failure {
 		}
 	}
 	res := &OpResult{Before: w.Snap()}
-	w.runOp(func() { res.Err = w.Plugin.VerifResyncPod() })
+	for pass := 0; pass < 4; pass++ {
+		// a resync pass in which an (injected) custom-resource lookup failed rightly keeps the IPs of that app: quiescence means the
+		// pass is repeated until it ran with every lookup answered
+		w.mu.Lock()
+		failedBefore := w.crFailed
+		w.mu.Unlock()
+		w.runOp(func() { res.Err = w.Plugin.VerifResyncPod() })
+		w.mu.Lock()
+		again := w.crFailed != failedBefore
+		w.mu.Unlock()
+		if !again {
+			break
+		}
+	}
 	x.count("op:quiesce")
 	x.Rec.Logf("%3d quiesce => %s", i, w.DumpState())
 	for _, o := range x.Obs {
